@@ -22,7 +22,8 @@ RULE = (
     "labelling; every outcome history of the rule's k measurements with non-zero probability is enumerated "
     "(exhaustive over histories, random over inputs). On every branch the target wires must hold "
     "T|psi> (T = the operator's matrix; pure, i.e. unentangled from the work wires, global phase free) and "
-    "the work wires must end in a pure state that depends on the history only (compared across two inputs). "
+    "the work wires the rule requested in the zero state must end in one pure state, the same for every history "
+    "and every input (wires a rule requests in \"any\" state are handed over in a random state and not examined afterwards). "
     "distinct = distinct (rule, input seed, labelling, set of reachable histories); non-trivial = the rule "
     "has at least two reachable outcome histories."
 )
@@ -263,6 +264,10 @@ def run_case(case):
             op = mk(labels)
         rule = qp.list_decomps(name)[rname]
         tape = _record(rule, op)
+        # what the rule itself asks of each work wire it allocates: "zero" wires arrive in |0>, "any" wires
+        # may arrive in whatever state the allocator has at hand
+        requested = [str(getattr(o.state, "value", o.state)) for o in tape.operations
+                     if type(o).__name__ == "Allocate" for _ in o.wires]
         (tape,), _ = qp.transforms.resolve_dynamic_wires(tape, min_int=100)
     except Exception as e:  # noqa: BLE001
         viol("unexpected_exception", {"exc": type(e).__name__}, {"error": repr(e)[:300]})
@@ -300,7 +305,24 @@ def run_case(case):
             else:
                 psi_t = g.normal(size=2**nt) + 1j * g.normal(size=2**nt)
                 psi_t /= np.linalg.norm(psi_t)
-            full = np.kron(psi_t, sim.zero_state(len(aux))) if aux else psi_t
+            # allocated work wires get consecutive labels from 100 on, in allocation order, as long as none
+            # is reused; a wire the rule requested in "any" state is handed over in a random state
+            dyn = [x for x in all_wires if x not in labels]
+            any_wires = set()
+            if aux and len(dyn) == len(requested) and "any" in requested:
+                aux_state = np.array([1.0 + 0j])
+                for x, req in zip(dyn, requested):
+                    if req == "any":
+                        v = g.normal(size=2) + 1j * g.normal(size=2)
+                        v /= np.linalg.norm(v)
+                        any_wires.add(pos[x])
+                        counters["work_wires_handed_over_dirty"] = 1
+                    else:
+                        v = np.array([1.0 + 0j, 0.0])
+                    aux_state = np.kron(aux_state, v)
+                full = np.kron(psi_t, aux_state)
+            else:
+                full = np.kron(psi_t, sim.zero_state(len(aux))) if aux else psi_t
             expected_t = T @ psi_t
             rho_exp = np.outer(expected_t, expected_t.conj())
             branches = list(_enumerate(ops, full, pos, n))
@@ -318,14 +340,23 @@ def run_case(case):
                           "purity": round(float(np.real(np.trace(rho_t @ rho_t))), 8), "wires": labels,
                           "control_values": case["control_values"] if domain == "and" else None})
                     break
-                if aux:
-                    rho_a = _reduced(st, aux, n)
+                known_aux = [i for i in aux if i not in any_wires]
+                if known_aux:
+                    rho_a = _reduced(st, known_aux, n)
                     if abs(float(np.real(np.trace(rho_a @ rho_a))) - 1) > 1e-8:
                         viol("work_wires_not_in_a_pure_state", {}, {"history": list(h)})
                         break
                     aux_states[h] = rho_a
             if abs(total - 1) > 1e-8 and not violations:
                 viol("branch_probabilities_do_not_sum_to_one", {}, {"total": total})
+            # "end in a known state": one state, whatever the measurement outcomes were
+            if not violations and aux_states:
+                hs = sorted(aux_states)
+                for h in hs[1:]:
+                    if not np.allclose(aux_states[h], aux_states[hs[0]], atol=1e-8):
+                        viol("work_wire_state_depends_on_history", {},
+                             {"history_a": list(hs[0]), "history_b": list(h)})
+                        break
             per_input_aux.append(aux_states)
             if violations:
                 break
